@@ -189,6 +189,14 @@ func (e *linEnv) varName(v ssa.Value) string {
 			}
 		}
 	}
+	// a field of a struct carried in a local variable with a single possible source: that source
+	if sal, fidx, ok := localFieldLoad(v); ok {
+		if srcs := localStructFieldSources(sal, fidx, 0); len(srcs) == 1 {
+			n := e.varName(srcs[0])
+			e.names[v] = n
+			return n
+		}
+	}
 	// field load: loads of the same field of the same object denote the same value when no write
 	// to that field (a store, or a call to a module function that stores to it) can execute
 	// between them
